@@ -239,6 +239,10 @@ def step (st : St) (line : String) : St × String :=
         match k.toNat? with
         | some k => run1 st n e (.sinkRoom (some k))
         | none => (st, "bad-op")
+      | "deliver", "many" :: hs =>
+        match hs.mapM (fun h => parseIn ["bin", h]) with
+        | some ws => run3 st n (applyDeliverMany e ws)
+        | none => (st, "bad-op")
       | "deliver", "closemany" :: hs =>
         match hs.mapM (fun h => parseIn ["bin", h]) with
         | some ws => run3 st n (applyDeliverMany e ([.msg .close] ++ ws ++ [.eof]))
